@@ -2,7 +2,8 @@
     [Gen.Callbacks] is regenerated from contract/{vm_callback,vm,vm_state,internal_operations}.go
     by gen/gen_vmguard on every run (the VM cannot be built or run here: the tie is the translator). *)
 From Coq Require Import List Bool String.
-From Verif Require Import VmGuard.Lang VmGuard.Analysis VmGuard.CSide VmGuard.Reviewed Gen.Callbacks Gen.CCallbacks.
+From Coq Require Import ZArith.
+From Verif Require Import VmGuard.Lang VmGuard.Analysis VmGuard.Balance VmGuard.CSide VmGuard.Reviewed Gen.Callbacks Gen.CCallbacks.
 Import ListNotations.
 
 (** The analyser is sound for every program, callback list and iteration bound (it verifies that
@@ -45,6 +46,76 @@ Theorem C20_callees_classified :
   classification_ok Gen.Callbacks.verb_callees Gen.Callbacks.translator_mutators Gen.Callbacks.translator_restore = true.
 Proof. vm_compute. reflexivity. Qed.
 Print Assumptions C20_callees_classified.
+
+(* ------------------------------------------------------------------------------------------
+   The context flags are not assumed: the view-depth counter discipline and the flag inventory. *)
+
+(** Soundness of the counter analysis for every program (VmGuard/Balance.v): if [counter_ok]
+    accepts, then on every path through every function -- early returns, panics of callees or of
+    contract code, deferred statements, the callbacks that contract code calls -- the counter is
+    back at its entry value when the function is left, it is never below the entry value while
+    contract code runs, and it is above it while contract code runs under a view executor. *)
+Theorem C20_counter_analysis_sound : forall exempt L p cbs, counter_ok exempt L p cbs = true ->
+  forall f body fl d pp o l c, lookup p f = Some body -> exempt f = false ->
+  (uses_view body = false -> fl "isView"%string = false) -> (0 <= c)%Z ->
+  crun p cbs fl body (0, 0)%Z (d, pp) o l ->
+  (c + (d + pp) = c)%Z /\
+  Forall (fun e => (0 <= c + snd e)%Z /\ (fst e = true -> Z.ltb 0 (c + snd e) = true)) l.
+Proof. exact counter_discipline. Qed.
+Print Assumptions C20_counter_analysis_sound.
+
+(** The obligation over the translated source: every Go function of package contract (not only
+    those reachable from the callbacks: Execute, Call, Query, ... too) and the C functions. *)
+Definition bracket (f : string) : bool := String.eqb f "luaViewStart" || String.eqb f "luaViewEnd".
+Definition counter_program : prog := (Gen.Callbacks.all_functions ++ Gen.CCallbacks.c_program)%list.
+Definition counter_callbacks : list string :=
+  (filter (fun f => negb (bracket f)) Gen.Callbacks.callbacks ++ Gen.CCallbacks.c_entries)%list.
+Definition lua_runners : list string := lua_iter 12 counter_program [].
+
+Theorem C20_view_counter_balanced : counter_ok bracket lua_runners counter_program counter_callbacks = true.
+Proof. vm_cast_no_check (eq_refl true). Qed.
+Print Assumptions C20_view_counter_balanced.
+
+(** executor.call is the function with the counter operations, and it tests the isView flag *)
+Theorem C20_executor_call_translated :
+  lookup counter_program "executor.call" = Some Gen.Callbacks.f_executor_call /\
+  uses_view Gen.Callbacks.f_executor_call = true /\ sfree [] Gen.Callbacks.f_executor_call = false.
+Proof. vm_compute. repeat split. Qed.
+Print Assumptions C20_executor_call_translated.
+
+(** Every write, initialiser, copy of the context flags is a reviewed one: isQuery is never
+    assigned (never cleared), contexts are built by two constructors only and never copied,
+    nestedView is only changed by ++ / -- in executor.call and the bracket callbacks. *)
+Theorem C20_flag_sites_reviewed :
+  flag_sites_ok Gen.Callbacks.flag_sites = true /\ lua_running_ok Gen.Callbacks.lua_running_c Gen.Callbacks.lua_library_c = true.
+Proof. vm_compute. split; reflexivity. Qed.
+Print Assumptions C20_flag_sites_reviewed.
+
+(** The read-only hypothesis derived for view functions.  A context whose counter is c >= 0
+    (it starts at 0 and every function restores it) enters executor.call for a view function
+    (isView set).  Wherever contract code then runs as the body of that function -- nested calls
+    included -- the counter is positive, i.e. atom V holds; so with the amount hypothesis the
+    context is [good], and nothing that contract code does through the host API mutates state. *)
+Theorem C20_view_function_readonly :
+  forall fl d pp o l c, (0 <= c)%Z ->
+  crun counter_program counter_callbacks fl Gen.Callbacks.f_executor_call (0, 0)%Z (d, pp) o l ->
+  (c + (d + pp) = c)%Z /\
+  forall dd, In (true, dd) l ->
+  forall e, eV e = Z.ltb 0 (c + dd) -> (eF e || eP e || eZ e) = true ->
+  forall cb t o', In cb entry_points -> exec whole_program entry_points e (Call cb) t o' ->
+  forall m k e0, In (m, k, e0) t -> forbidden k e0 = false.
+Proof.
+  intros fl d pp o l c Hc Hr.
+  destruct C20_executor_call_translated as (Hl & Hu & _).
+  assert (Hu' : uses_view f_executor_call = false -> fl "isView"%string = false) by (rewrite Hu; discriminate).
+  destruct (counter_discipline _ _ _ _ C20_view_counter_balanced "executor.call"%string _ fl d pp o l c Hl eq_refl Hu' Hc Hr) as [Hz Hev].
+  split; [exact Hz|]. intros dd Hin e HV Hamt cb t o' Hcb Hex m k e0 Hm.
+  rewrite Forall_forall in Hev. destruct (Hev _ Hin) as [_ Hpos]. simpl in Hpos. specialize (Hpos eq_refl).
+  assert (Hg : good e = true).
+  { unfold good. rewrite HV, Hpos, Hamt. rewrite orb_true_r. reflexivity. }
+  exact (C20_readonly_no_mutation_c_side cb e t o' Hcb Hg Hex m k e0 Hm).
+Qed.
+Print Assumptions C20_view_function_readonly.
 
 (** F13 (known finding, fork version 4 only): the theorems above carry the hypothesis
     [good e] = read-only and (amount >= 0 or fork version >= 5).  Without it the check finds, on
